@@ -1809,9 +1809,7 @@ def run(ctx):
         "cases (70-90 nodes) are predicate only",
         "geometric(p) >= 1 for every draw (checked on every recorded draw, including p = 1e-18, 1-1e-16); np.inf is replayed as 2**40",
         "open findings (known_findings/C16.json): flag_complex / flag_complex_d2 with tuple or int/str mixed node labels, flag_complex with a numpy "
-        "array `ps`, shuffle_hyperedges repeating edges, node_swap on a network with a node labelled -1 (each with a proposed fix); _index_to_edge_partition loses the low bits of an index >= 2**53 (np.prod of the empty tail is the "
-        "float 1.0); the model (exact naturals) describes the behaviour with proposed_fixes/C16-index-to-edge-partition-exact-product.diff applied; "
-        "indices that show the defect are reported by the predicate (class not-bijection-large-index) and not replayed through the model.  "
+        "array `ps`, shuffle_hyperedges repeating edges, node_swap on a network with a node labelled -1 (each with a proposed fix).  (The _index_to_edge_partition defect above 2**53 is fixed in /repo 04eeed5; large indices are still evaluated.)  "
         "A flag complex holds the cliques with at least two nodes: a 1-node simplex is reported (singleton-simplex; fixed in /repo 6782803)",
         "every generator call runs under a CPU-time budget (2 s, sunflower 0.3 s; ITIMER_VIRTUAL) and is repeated once with ten times the "
         "budget before an expiry is reported as `nonterminating`",
